@@ -544,6 +544,61 @@ pub fn check_program(e: &E, input: &V, resolves: &HashMap<u64, V>, r: &mut Rng, 
     }
 }
 
+/// text-level rewrites only, on a program given as text (the repository's own scripts)
+pub fn check_text(src: &str, input: &V, resolves: &HashMap<u64, V>, r: &mut Rng, combos: usize, acc: &mut Acc) {
+    let base = observe(src, input, resolves);
+    acc.evals += 2;
+    if base.out.iter().any(|o| matches!(o, Outcome::Rejected(_) | Outcome::Panic(_))) || base.tree.is_none() {
+        acc.count("original_not_accepted_skipped");
+        return;
+    }
+    let toks = match reflex(src) {
+        RLex::Tokens(t) => t,
+        _ => {
+            acc.count("reference_lexer_declined");
+            return;
+        }
+    };
+    let sig = significant(&toks);
+    let ref_tree = ref_tree_of(src);
+    if ref_tree.is_some() {
+        acc.count("programs_with_reference_tree");
+    }
+    for rw in text_rewrites(src, &toks) {
+        if !admissible(&toks, &sig, &ref_tree, &rw) {
+            acc.count("rewrite_not_admissible_by_reference");
+            continue;
+        }
+        compare(rw.kind, rw.kind, src, &rw.text, input, &base, resolves, TreeRel::Same, acc);
+    }
+    for _ in 0..combos {
+        let mut text = src.to_string();
+        let mut chain: Vec<&'static str> = vec![];
+        for _ in 0..(2 + r.below(6)) {
+            let toks2 = match reflex(&text) {
+                RLex::Tokens(t) => t,
+                _ => break,
+            };
+            let sig2 = significant(&toks2);
+            let rt2 = ref_tree_of(&text);
+            let c = text_rewrites(&text, &toks2);
+            if c.is_empty() {
+                break;
+            }
+            let rw = &c[r.below(c.len())];
+            if admissible(&toks2, &sig2, &rt2, rw) {
+                text = rw.text.clone();
+                chain.push(rw.kind);
+            }
+        }
+        if chain.len() < 2 {
+            continue;
+        }
+        acc.max("longest_rewrite_chain", chain.len() as u64);
+        compare("combination", &chain.join(" + "), src, &text, input, &base, resolves, TreeRel::Same, acc);
+    }
+}
+
 /// `check_program`, with every violation re-found on the smallest sub-program that still shows it
 pub fn check_min(e: &E, input: &V, resolves: &HashMap<u64, V>, r: &mut Rng, all_single: bool, combos: usize, acc: &mut Acc) {
     let mut scratch = Acc::default();
@@ -596,9 +651,19 @@ pub fn run(ctx: &Ctx) -> (Acc, String, bool) {
     let random_total: u64 = ctx.pick(2_500, 150_000);
     let seed = ctx.seed;
     let cfg = GenCfg::default();
-    let acc = run_cases(ctx, small_total + random_total, |i, acc| {
+    let scripts = crate::corpus::repo_scripts();
+    let script_total = scripts.len() as u64;
+    let acc = run_cases(ctx, small_total + random_total + script_total, |i, acc| {
         let mut r = Rng::for_case(seed, i);
-        if i < small_total {
+        if i >= small_total + random_total {
+            let (name, text) = &scripts[(i - small_total - random_total) as usize];
+            check_text(text.trim_end(), &V::Unit, &resolves, &mut r, ctx.pick(20, 400), acc);
+            acc.nontrivial += 1;
+            acc.count("repo_scripts_rewritten");
+            if i % 7 == 0 {
+                acc.sample(Json::s(format!("repository script {}", name)));
+            }
+        } else if i < small_total {
             let e = &small[i as usize];
             let input = &ins[[0usize, 2, 4][(i % 3) as usize]];
             check_min(e, input, &resolves, &mut r, true, 2, acc);
@@ -616,7 +681,7 @@ pub fn run(ctx: &Ctx) -> (Acc, String, bool) {
         }
     });
     let rule = format!(
-        "every core-language AST of <= {} nodes ({} programs) and {} random programs (depth <= 5); on each: every single application, at every position, of: widen a blank run with space / tab / several, blank to tab, annotation in a blank run, comment line in a blank run, remove a blank run, insert a blank / an annotation between adjacent tokens, trailing blanks before a line break and at the end, blanks on the empty line of a blank-line separator, comment line after a line break and at the start (text rewrites admitted only when the reference lexer sees the same significant tokens and, for the gated ones, the reference parser the same tree); parentheses around every operand; an effect-free side-effect block added after every value or group; effect-free blocks dropped; plus random combinations of 2..7 rewrites. Parse tree (modulo trivia / added groups / added blocks), final value on both stores and host resolve sequence are compared with the unrewritten program's.",
+        "every core-language AST of <= {} nodes ({} programs) and {} random programs (depth <= 5); on each: every single application, at every position, of: widen a blank run with space / tab / several, blank to tab, annotation in a blank run, comment line in a blank run, remove a blank run, insert a blank / an annotation between adjacent tokens, trailing blanks before a line break and at the end, blanks on the empty line of a blank-line separator, comment line after a line break and at the start (text rewrites admitted only when the reference lexer sees the same significant tokens and, for the gated ones, the reference parser the same tree); parentheses around every operand; an effect-free side-effect block added after every value or group; effect-free blocks dropped; plus random combinations of 2..7 rewrites; the text rewrites (single, and combinations) also on every script under the repository's tests/scripts. Parse tree (modulo trivia / added groups / added blocks), final value on both stores and host resolve sequence are compared with the unrewritten program's.",
         k, small_total, random_total
     );
     (acc, rule, false)
